@@ -579,10 +579,15 @@ func (t *genTable[Obj]) Changes(txn WriteTxn) (ChangeIterator[Obj], error) {
 		return nil, err
 	}
 
-	// Add a cleanup to unregister the delete tracker.
+	// Add a cleanup to unregister the delete tracker. Closing needs a write
+	// transaction on the table and thus may block for as long as the table is
+	// locked. Do it from a goroutine of its own: the runtime runs the cleanups
+	// sequentially on a few shared goroutines, and blocking one of them on this
+	// table would hold up the cleanups (and thereby the closing of the dropped
+	// iterators) of all other tables.
 	runtime.AddCleanup(
 		iter,
-		func(dt *deleteTracker[Obj]) { dt.close() },
+		func(dt *deleteTracker[Obj]) { go dt.close() },
 		iter.dt,
 	)
 
